@@ -31,7 +31,7 @@ import (
 // Lin is a + b*n.
 type Lin struct{ A, B int }
 
-func (l Lin) add(k int) Lin { return Lin{l.A + k, l.B} }
+func (l Lin) add(k int) Lin  { return Lin{l.A + k, l.B} }
 func (l Lin) plus(o Lin) Lin { return Lin{l.A + o.A, l.B + o.B} }
 func maxLin(x, y Lin) Lin {
 	if x.B != y.B {
@@ -70,7 +70,8 @@ type Info struct {
 	Accesses []Access
 	Guards   []Guard
 	Calls    []string
-	Stipend  int // operand index guarding `gas += CallStipend`, -1 when absent
+	Stipend  int   // operand index guarding `gas += CallStipend`, -1 when absent
+	NumOps   []int // operands converted with Uint64()/Uint64WithOverflow(): offsets, lengths, indexes
 	Paths    int
 	Problems []string
 }
@@ -113,6 +114,7 @@ type scanner struct {
 	acc     map[string]Access
 	guards  map[Guard]bool
 	calls   map[string]bool
+	nums    map[int]bool
 }
 
 func (sc *scanner) problem(n ast.Node, f string, a ...interface{}) {
@@ -381,8 +383,14 @@ func (sc *scanner) call(st *state, c *ast.CallExpr) operand {
 		sc.eval(st, a)
 	}
 	switch name {
-	case "Uint64", "Uint64WithOverflow":
+	case "Uint64", "Uint64WithOverflow", "IsUint64":
 		if len(c.Args) == 0 {
+			if recv.ok && !recv.konst && sc.nums != nil {
+				sc.nums[recv.idx] = true
+			}
+			if name == "IsUint64" {
+				return operand{}
+			}
 			return recv
 		}
 	}
@@ -753,6 +761,10 @@ func (sc *scanner) run(body *ast.BlockStmt, init *state) {
 		}
 		return info.Guards[i].Less < info.Guards[j].Less
 	})
+	for n := range sc.nums {
+		info.NumOps = append(info.NumOps, n)
+	}
+	sort.Ints(info.NumOps)
 	for c := range sc.calls {
 		info.Calls = append(info.Calls, c)
 	}
@@ -775,7 +787,7 @@ func Scan(repo string) (map[string]*Info, error) {
 			}
 			if ctx, interp, ok := isExecSig(fd.Type); ok {
 				info := &Info{Name: fd.Name.Name, Stipend: -1}
-				sc := &scanner{fset: fset, info: info, ctx: ctx, interp: interp, stackAl: map[string]bool{}, acc: map[string]Access{}, guards: map[Guard]bool{}, calls: map[string]bool{}}
+				sc := &scanner{fset: fset, info: info, ctx: ctx, interp: interp, stackAl: map[string]bool{}, acc: map[string]Access{}, guards: map[Guard]bool{}, calls: map[string]bool{}, nums: map[int]bool{}}
 				sc.run(fd.Body, &state{vars: map[string]operand{}, lin: map[string]Lin{}})
 				out[info.Name] = info
 				continue
@@ -785,7 +797,7 @@ func Scan(repo string) (map[string]*Info, error) {
 				fd.Type.Params != nil && len(fd.Type.Params.List) > 0 && len(fd.Type.Params.List[0].Names) > 0 {
 				info := &Info{Name: fd.Name.Name, Maker: true, Stipend: -1}
 				init := &state{vars: map[string]operand{}, lin: map[string]Lin{fd.Type.Params.List[0].Names[0].Name: {0, 1}}}
-				sc := &scanner{fset: fset, info: info, stackAl: map[string]bool{}, acc: map[string]Access{}, guards: map[Guard]bool{}, calls: map[string]bool{}}
+				sc := &scanner{fset: fset, info: info, stackAl: map[string]bool{}, acc: map[string]Access{}, guards: map[Guard]bool{}, calls: map[string]bool{}, nums: map[int]bool{}}
 				var lit *ast.FuncLit
 				for _, s := range fd.Body.List {
 					if rs, ok := s.(*ast.ReturnStmt); ok && len(rs.Results) == 1 {
